@@ -55,6 +55,9 @@ func (c *compiler) compileChange(achange *parse.Change) *Change {
 	if err := connectDots(c.fset, ldots, rdots, rc.dotAssoc); err != nil {
 		c.errf(achange.Patch.Pos(), "%v", err)
 	}
+	for _, pos := range rc.strayDots {
+		c.errf(pos, `"..." is not supported here in the "+" section`)
+	}
 
 	return &Change{
 		Name:     achange.Name, // TODO(abg): validate name
